@@ -328,6 +328,8 @@ fn datagrams_from_transmit(transmit: &Transmit<'_>) -> Datagrams {
 pub mod verif_hooks {
     /// The home-relay watch (`HomeRelayWatch`) driven directly.
     pub use super::actor::verif_hooks as home_relay;
+    /// A real `ActiveRelayActor` started from outside the crate, with connection life-cycle events (C14).
+    pub use super::actor::verif_hooks_actor as active_relay;
 
     use std::{
         io,
